@@ -1,10 +1,65 @@
+import WV.Proofs.ClientCert
 import WV.Model.ClientData
 
-namespace WV.Props.C14
-open WV.Client WV.ClientData
+/-!
+# C14 — no internal failure on any legal use against a conformant server
 
-/-- every concrete step of the client projects onto a step of the control model -/
+`Reach enabled` = every state of the closed system client × environment (`WV.ClientEnv`) reachable
+by ANY finite sequence of events the environment may produce (legal API calls; every behaviour of
+a conformant server including duplicated and reordered deliveries, error and welcome-error
+replies, a matching or non-matching peer; connection loss, failed first connection) — no bound on
+the length of the run.  The client's control is `Client.step` over the Automat tables generated
+from /repo on every run.
+-/
+namespace WV.Props.C14
+open WV.Client WV.ClientEnv WV.ClientData WV.Cert
+
+/-- **no_internal_failure**: in every reachable state, whatever the environment does next, the
+    client's reaction raises no `NoTransition`, no assertion failure, no undocumented exception,
+    and the interpreter never runs out of fuel (`Outcome.internal` covers all of these). -/
+theorem no_internal_failure (s : Sys) (hr : Reach enabled s) (e : Event) (he : enabled s e = true) :
+    ∀ x, (sysStep s e).2 ≠ Outcome.internal x :=
+  (WV.ClientCert.safe_components (WV.ClientCert.reach_safe s hr e he)).1
+
+/-- the verdict handed to the application is 'happy' or a documented WormholeError, and it is the
+    one the history justifies (`verdictOK`) -/
+theorem verdict_documented (s : Sys) (hr : Reach enabled s) (e : Event) (he : enabled s e = true) :
+    (sysStep s e).1.mon.verdictBad = false :=
+  (WV.ClientCert.safe_components (WV.ClientCert.reach_safe s hr e he)).2.2.2.2.2.1
+
+/-- the outcome of the system step is the outcome of the client's control step -/
+theorem sysStep_outcome (s : Sys) (e : Event) : (sysStep s e).2 = (Client.step s.ctl e).2.2 := rfl
+
+/-- every concrete step of the client (with phase numbers, dedup set, reorder buffer, pending
+    list) projects onto a step of the control model … -/
 theorem conc_step_ctl (s : Conc) (ev : CEvent) :
     (cstep s ev).1.ctl = (Client.step s.ctl (classify s.data ev)).1 := rfl
+
+/-- … with the same outcome: so whenever the abstract state is reachable and the classified event
+    is one the environment may produce, the concrete client does not fail internally either. -/
+theorem no_internal_failure_concrete (s : Sys) (hr : Reach enabled s) (d : Data) (ev : CEvent)
+    (he : enabled s (classify d ev) = true) :
+    ∀ x, (cstep { ctl := s.ctl, data := d } ev).2.2 ≠ Outcome.internal x := by
+  intro x
+  have h := no_internal_failure s hr (classify d ev) he x
+  rw [sysStep_outcome] at h
+  exact h
+
+/-- non-vacuity: a non-trivial reachable state (code set, connected, welcomed, nameplate claimed,
+    mailbox open, peer's PAKE processed) in which many events are enabled -/
+def demo : Sys :=
+  [Event.setCode true, .wsOpen, .welcome false, .claimed, .message .theirs .pake true true .good].foldl
+    (fun s e => (sysStep s e).1) { env := { matchKey := true } }
+
+example : Reach enabled demo := by
+  have h0 : Reach enabled ({ env := { matchKey := true } } : Sys) := Reach.init (by decide)
+  have h1 := Reach.step (Event.setCode true) h0 (by decide)
+  have h2 := Reach.step Event.wsOpen h1 (by decide)
+  have h3 := Reach.step (Event.welcome false) h2 (by decide)
+  have h4 := Reach.step Event.claimed h3 (by decide)
+  exact Reach.step (Event.message .theirs .pake true true .good) h4 (by decide)
+
+example : demo.ctl.b = .S1_lonely ∧ demo.ctl.sk = .S2_know_key ∧ demo.ctl.r = .S1_unverified_key := by decide
+example : enabled demo (.message .theirs .version true true .good) = true := by decide
 
 end WV.Props.C14
